@@ -100,7 +100,7 @@ func (c *Client) handleList() error {
 		case *ListCommand:
 			return true // TODO: match pattern, check if already handled
 		case *SelectCommand:
-			return cmd.mailbox == data.Mailbox && cmd.data.List == nil
+			return sameMailbox(cmd.mailbox, data.Mailbox) && cmd.data.List == nil
 		default:
 			return false
 		}
@@ -256,4 +256,13 @@ func readDelim(dec *imapwire.Decoder) (rune, error) {
 	} else {
 		return 0, nil
 	}
+}
+
+// sameMailbox compares a mailbox name given by the caller with one decoded
+// from a response. INBOX is case-insensitive and always decoded as "INBOX".
+func sameMailbox(requested, received string) bool {
+	if strings.EqualFold(requested, "INBOX") {
+		return received == "INBOX"
+	}
+	return requested == received
 }
